@@ -783,9 +783,11 @@ func (s *SMT) VerifyProof(k []byte, v []byte, validateMembership bool, root []by
 	if proofLen < 2 {
 		return false, ErrInvalidMerkleTreeProof()
 	}
-	// every proof node must carry a well-formed node key no longer than the tree depth
+	// every proof node must carry a well-formed node key no longer than the tree depth and a value of the size every node of
+	// the tree has: parents are hashed over leftKey|leftValue|rightKey|rightValue without length framing, so a node whose
+	// key / value boundary was moved hashes the same; the fixed value size pins the boundary
 	for _, n := range proof {
-		if n == nil || !validNodeKeyBytes(n.Key, s.keyBitLength) {
+		if n == nil || !validNodeKeyBytes(n.Key, s.keyBitLength) || !s.validNodeValueSize(n) {
 			return false, ErrInvalidMerkleTreeProof()
 		}
 	}
@@ -1034,6 +1036,17 @@ func validNodeKeyBytes(b []byte, maxBits int) bool {
 		return false
 	}
 	return (&key{key: b}).totalBits() <= maxBits
+}
+
+// validNodeValueSize() checks the size of a proof node's value: a hash (leaf: hash of the value, parent: hash of its children),
+// or one of the two fixed sentinel leaves (min / max) the tree is initialized with
+func (s *SMT) validNodeValueSize(n *lib.Node) bool {
+	if len(n.Value) == crypto.HashSize {
+		return true
+	}
+	minKey, maxKey := newNodeKey(bytes.Repeat([]byte{0}, 20), s.keyBitLength), newNodeKey(bytes.Repeat([]byte{255}, 20), s.keyBitLength)
+	return (bytes.Equal(n.Key, minKey.bytes()) && bytes.Equal(n.Value, bytes.Repeat([]byte{0}, 20))) ||
+		(bytes.Equal(n.Key, maxKey.bytes()) && bytes.Equal(n.Value, bytes.Repeat([]byte{255}, 20)))
 }
 
 // isPrefixOf() returns true if every bit of k is a leading bit of other
